@@ -1,4 +1,194 @@
-From Coq Require Import ZArith List Bool.
-From V Require Import Model.Sufficiency Proofs.SufficiencyProofs.
-Theorem C10_stub : True. Proof. exact stub_true. Qed.
-Print Assumptions C10_stub.
+(* C10 — sufficiency verdicts are exactly the published criteria.
+   Statements only; proofs are in Proofs/SufficiencyProofs.v; the model is Model/Sufficiency.v (criteria classes and the
+   way the six data classes call them), its parameters (check sequences, thresholds, constructor flags) are regenerated
+   from the source on every run (Generated/SufficiencyGen.v) and enter through [code_params] (Model/SufficiencyRun.v).
+
+   The declarative side ([violates_baseline], [violates_reporting], Model/Sufficiency.v) is the statement's list:
+   span outside 329-365 days; under 90 % of the span in whole days with valid usage / valid temperature / both (each
+   timestamp's period up to the next timestamp); a month of the year under 90 % temperature (hourly: usage, irradiance)
+   coverage; negative usage of a non-electric baseline; no data at all. *)
+From Coq Require Import ZArith QArith List Bool.
+From V Require Import Model.Sufficiency Model.SufficiencyRun Generated.SufficiencyGen Proofs.SufficiencyProofs.
+Import ListNotations.
+Open Scope Z_scope.
+
+(* ---- the full statement, for the parameters the code has now ---- *)
+Definition C10_statement : Prop :=
+  forall f w el cx fr,
+    exists dq ws, dataclass code_params f w el cx fr = Accepted dq ws /\
+      forall n, In n dq <-> match w with Baseline => violates_baseline f el fr n | Reporting => violates_reporting f fr n end.
+
+(* the faithful model of the unchanged code does not satisfy it everywhere: *)
+Theorem C10_statement_refuted : ~ C10_statement.
+Proof. exact statement_refuted_l. Qed.
+Print Assumptions C10_statement_refuted.
+
+(* ... it does inside [guard]: baseline data has a usage column; reporting data is declared as such to the criteria
+   class and its usage column is absent or complete; no off-cycle billing read (or those go to the warnings) *)
+Theorem C10_statement_partial : forall f w el cx fr, guard f w cx fr ->
+  exists dq ws, dataclass code_params f w el cx fr = Accepted dq ws /\
+    forall n, In n dq <-> match w with Baseline => violates_baseline f el fr n | Reporting => violates_reporting f fr n end.
+Proof. exact statement_partial_l. Qed.
+Print Assumptions C10_statement_partial.
+
+Example C10_statement_partial_witness : guard Daily Baseline cx0 (mkframe true false (ex_full 340)) /\
+  dataclass code_params Daily Baseline false cx0 (mkframe true false (ex_full 340)) = Accepted [] [].
+Proof. exact ex_baseline_clean. Qed.
+
+(* ---- baseline: soundness and completeness of the reported set, for every parameter record that says what the
+   statement says (any order of the checks) ---- *)
+Theorem C10_baseline_dq_exact : forall p f el cx fr,
+  params_ok p = true -> p_offcycle_dq p = false -> f_has_obs fr = true ->
+  exists dq ws, dataclass p f Baseline el cx fr = Accepted dq ws /\ NoDup dq /\
+    forall n, In n dq <-> violates_baseline f el fr n.
+Proof. exact baseline_dq_exact_l. Qed.
+Print Assumptions C10_baseline_dq_exact.
+
+(* ... and for the code as it is now, with the one extra name it can report *)
+Theorem C10_baseline_dq_exact_code : forall f el cx fr, f_has_obs fr = true ->
+  exists dq ws, dataclass code_params f Baseline el cx fr = Accepted dq ws /\ NoDup dq /\
+    forall n, In n dq <->
+      violates_baseline f el fr n \/ (n = OffcycleReads /\ f = Billing /\ x_offcycle cx = true /\ gen_offcycle_dq = true).
+Proof. exact baseline_dq_exact_code_l. Qed.
+Print Assumptions C10_baseline_dq_exact_code.
+
+(* on / one day past the 90 % threshold and at the four span limits *)
+Example C10_baseline_threshold_witness :
+  dq_of (dataclass code_params Daily Baseline false cx0 (mkframe true false (ex_temp_gap 340 100 34 (Some (5 # 1)%Q))))
+  = [TooManyDaysMissingData; TooManyDaysMissingTemperature] /\
+  dq_of (dataclass code_params Daily Baseline false cx0 (mkframe true false (ex_temp_gap 340 100 33 (Some (5 # 1)%Q))))
+  = [] /\
+  whole_days temp_valid90 (ex_temp_gap 340 100 33 (Some (5 # 1)%Q)) = 306.
+Proof. exact ex_baseline_threshold. Qed.
+
+Example C10_span_limits_witness :
+  map (fun n => dq_of (dataclass code_params Daily Baseline true cx0 (mkframe true false (ex_full n)))) [328; 329; 365; 366]%nat
+  = [[IncorrectNumberOfTotalDays]; []; []; [IncorrectNumberOfTotalDays]].
+Proof. exact ex_span_limits. Qed.
+
+(* ---- reporting ---- *)
+Theorem C10_reporting_dq_exact : forall p f el cx fr,
+  params_ok p = true -> p_offcycle_dq p = false -> p_reporting_flag p f = true -> usage_irrelevant fr ->
+  exists dq ws, dataclass p f Reporting el cx fr = Accepted dq ws /\ NoDup dq /\
+    forall n, In n dq <-> violates_reporting f fr n.
+Proof. exact reporting_dq_exact_l. Qed.
+Print Assumptions C10_reporting_dq_exact.
+
+Theorem C10_reporting_dq_exact_code : forall f el cx fr, gen_reporting_flag f = true -> usage_irrelevant fr ->
+  exists dq ws, dataclass code_params f Reporting el cx fr = Accepted dq ws /\ NoDup dq /\
+    forall n, In n dq <->
+      violates_reporting f fr n \/ (n = OffcycleReads /\ f = Billing /\ x_offcycle cx = true /\ gen_offcycle_dq = true).
+Proof. exact reporting_dq_exact_code_l. Qed.
+Print Assumptions C10_reporting_dq_exact_code.
+
+Example C10_reporting_witness :
+  dq_of (dataclass published Daily Reporting true cx0 (mkframe false false (ex_temp_gap 300 150 31 None)))
+  = [TooManyDaysMissingData; TooManyDaysMissingTemperature; MissingMonthlyTemperature].
+Proof. exact ex_reporting_verdict. Qed.
+
+(* ---- the regenerated parameters say what the statement says (thresholds, ceil(0.9 * 365) = 329, the sets of checks) ---- *)
+Theorem C10_code_params_published : params_ok code_params = true.
+Proof. exact code_params_published. Qed.
+Print Assumptions C10_code_params_published.
+
+Theorem C10_code_min_length : code_min_len = 329 /\ gen_max_baseline_length = 365.
+Proof. exact code_min_length. Qed.
+Print Assumptions C10_code_min_length.
+
+(* ---- exactly at each threshold: the binary64 comparisons of the code are the integer comparisons of the model, for
+   every pair of counts up to 1000 (finite check inside the kernel, the bound is part of the statement) ---- *)
+Theorem C10_threshold_exact : forall n d, 0 <= n <= 1000 -> 1 <= d <= 1000 ->
+  frac_lt gen_min_fraction_daily_coverage n d = (10 * n <? 9 * d) /\
+  frac_gt gen_min_fraction_hourly_temperature_coverage n d = (9 * d <? 10 * n).
+Proof. exact threshold_exact_l. Qed.
+Print Assumptions C10_threshold_exact.
+
+Theorem C10_under_is_float : forall n d, 0 <= n <= 1000 -> 1 <= d <= 1000 ->
+  under code_params n (Some d) = frac_lt gen_min_fraction_daily_coverage n d.
+Proof. exact under_is_float_l. Qed.
+Print Assumptions C10_under_is_float.
+
+Example C10_threshold_witness :
+  frac_lt gen_min_fraction_daily_coverage 306 340 = false /\ frac_lt gen_min_fraction_daily_coverage 305 340 = true /\
+  frac_lt gen_min_fraction_daily_coverage 27 30 = false.
+Proof. vm_compute. repeat split. Qed.
+
+(* ---- warnings never change the verdict ---- *)
+Theorem C10_warnings_never_change_verdict : forall p f w el cx cx' fr,
+  p_offcycle_dq p = false \/ x_offcycle cx = x_offcycle cx' ->
+  dq_of (dataclass p f w el cx fr) = dq_of (dataclass p f w el cx' fr).
+Proof. exact warnings_never_change_verdict_l. Qed.
+Print Assumptions C10_warnings_never_change_verdict.
+
+(* the magnitude of the usage values (extreme values) never changes the verdict: only presence and sign do *)
+Theorem C10_usage_magnitude_never_changes_verdict : forall p f w el cx o g rows rows',
+  Forall2 same_shape rows rows' ->
+  dq_of (dataclass p f w el cx (mkframe o g rows)) = dq_of (dataclass p f w el cx (mkframe o g rows')).
+Proof. exact usage_magnitude_never_changes_verdict_l. Qed.
+Print Assumptions C10_usage_magnitude_never_changes_verdict.
+
+Example C10_usage_magnitude_witness :
+  Forall2 same_shape ex_negative (map (fun i => ex_row i (Some (if Nat.eqb i 7 then (-1 # 2) else (1 # 1))%Q) true) (seq 0 340)) /\
+  dataclass code_params Daily Baseline false cx0 (mkframe true false ex_negative) = Accepted [NegativeMeterValues] [ExtremeValues] /\
+  dataclass code_params Daily Baseline true cx0 (mkframe true false ex_negative) = Accepted [] [ExtremeValues].
+Proof. exact (conj ex_same_shape ex_negative_verdicts). Qed.
+
+(* the four warnings are what the context and the extreme-value rule say, whatever the verdict *)
+Theorem C10_warnings_spec : forall p f w el cx fr dq ws n,
+  dataclass p f w el cx fr = Accepted dq ws ->
+  (In n ws <->
+   match n with
+   | ExtremeValues => In CExtreme (sequence_of p f w) /\ is_reporting_flag p f w = false /\ has_extreme (f_rows fr) = true
+   | UtcIndex => x_utc cx = true
+   | UnverifiableTemperature => is_hourly f = false /\ x_unverifiable cx = true
+   | OffcycleWarning => is_billing f = true /\ x_offcycle cx = true /\ p_offcycle_dq p = false
+   end).
+Proof. exact warnings_spec_l. Qed.
+Print Assumptions C10_warnings_spec.
+
+(* off-cycle reads do change the verdict of the code as it is (recorded finding C10-F1) *)
+Theorem C10_offcycle_changes_verdict_refuted : gen_offcycle_dq = true ->
+  In OffcycleReads (dq_of (dataclass code_params Billing Baseline true cx_off (mkframe true false (ex_full 340)))) /\
+  dq_of (dataclass code_params Billing Baseline true cx0 (mkframe true false (ex_full 340))) = [] /\
+  ~ violates_baseline Billing true (mkframe true false (ex_full 340)) OffcycleReads.
+Proof. exact refuted_offcycle_l. Qed.
+Print Assumptions C10_offcycle_changes_verdict_refuted.
+
+(* ---- every well-formed input is accepted ---- *)
+Theorem C10_accepts_wellformed : forall p f w el cx fr,
+  is_reporting_flag p f w = true \/ f_has_obs fr = true ->
+  exists dq ws, dataclass p f w el cx fr = Accepted dq ws.
+Proof. exact dataclass_accepts. Qed.
+Print Assumptions C10_accepts_wellformed.
+
+Theorem C10_raises_exactly : forall p f w el cx fr e,
+  dataclass p f w el cx fr = Raised e <-> e = AttributeError /\ is_reporting_flag p f w = false /\ f_has_obs fr = false.
+Proof. exact dataclass_raises. Qed.
+Print Assumptions C10_raises_exactly.
+
+(* a baseline whose usage is entirely missing is not accepted (recorded finding C10-F3) *)
+Theorem C10_accepts_wellformed_refuted :
+  dataclass code_params Daily Baseline true cx0 (mkframe false false (map (fun i => ex_row i None true) (seq 0 340)))
+  = Raised AttributeError.
+Proof. exact refuted_no_usage_l. Qed.
+Print Assumptions C10_accepts_wellformed_refuted.
+
+(* hourly reporting data is judged by the usage rules (recorded finding C10-F2) *)
+Theorem C10_hourly_reporting_refuted : gen_reporting_flag Hourly = false ->
+  let fr := mkframe true false (map (fun i => ex_row i None true) (seq 0 340)) in
+  In NoData (dq_of (dataclass code_params Hourly Reporting true cx0 fr)) /\ ~ violates_reporting Hourly fr NoData.
+Proof. exact refuted_hourly_reporting_l. Qed.
+Print Assumptions C10_hourly_reporting_refuted.
+
+(* the span of reporting data is measured over the rows that have usage (recorded finding C10-F4) *)
+Theorem C10_reporting_partial_usage_refuted :
+  dq_of (dataclass code_params Daily Reporting true cx0 ex_rep_partial) = [MissingMonthlyTemperature] /\
+  violates_reporting Daily ex_rep_partial TooManyDaysMissingTemperature.
+Proof. exact refuted_reporting_partial_usage_l. Qed.
+Print Assumptions C10_reporting_partial_usage_refuted.
+
+(* ---- the frames of the correspondence: the run-length expansion (civil month cached per local day) is the plain one ---- *)
+Theorem C10_frame_expansion : forall t step n off obs tp cov g a,
+  expand_seg (t, step, n, off, obs, tp, cov, g, a) = expand_seg_simple (Z.to_nat n) t step off obs tp cov g a.
+Proof. exact expand_seg_simple_eq. Qed.
+Print Assumptions C10_frame_expansion.
